@@ -117,7 +117,32 @@ func runC12(c *Ctx) error {
 		runs[i] = T.NewRun(cs.Class, cs.cfg())
 		runs[i].Key = fmt.Sprintf("%+v", cs)
 	}
-	Parallel(len(cases), func(i int) { c12Run(runs[i], cases[i]) })
+	// the same message object comes to the middleware again (a subscriber redelivering the object it nacked, a Retry
+	// inside a Retry): the second pass is a call like the first -- same budget of retries, same back-off
+	type again struct {
+		cs     c12Case
+		r1, r2 *tr.Run
+	}
+	var agains []again
+	for _, me := range []time.Duration{0, 2 * time.Second} {
+		for _, fn := range []int{-1, 2} {
+			cs := c12Case{MaxRetries: 3, Initial: 3 * ms, MaxI: 20 * ms, MNum: 2, MDen: 1, RFNum: 0, RFDen: 1, MaxElapsed: me, FailN: fn, Class: "same-message-again"}
+			a := again{cs: cs, r1: T.NewRun(cs.Class, cs.cfg()), r2: T.NewRun(cs.Class, cs.cfg())}
+			a.r1.Key, a.r2.Key = fmt.Sprintf("1/%+v", cs), fmt.Sprintf("2/%+v", cs)
+			agains = append(agains, a)
+		}
+	}
+	Parallel(len(cases)+len(agains), func(i int) {
+		if i < len(cases) {
+			c12Run(runs[i], cases[i])
+			return
+		}
+		a := agains[i-len(cases)]
+		msg := message.NewMessage(fmt.Sprintf("r%d", a.r1.ID), nil)
+		msg.SetContext(context.Background())
+		c12RunOn(a.r1, a.cs, nil, msg)
+		c12RunOn(a.r2, a.cs, nil, msg)
+	})
 	// several messages at once through the same wrapped handler
 	ng := c.Pick(4, 60)
 	type grp struct {
@@ -201,7 +226,10 @@ func goid() uint64 {
 
 func c12Run(r *tr.Run, cs c12Case) { c12RunShared(r, cs, nil) }
 
-func c12RunShared(r *tr.Run, cs c12Case, sh *c12Shared) {
+func c12RunShared(r *tr.Run, cs c12Case, sh *c12Shared) { c12RunOn(r, cs, sh, nil) }
+
+// c12RunOn: given != nil is a message that travels with its own (live) context; the case must not cancel then.
+func c12RunOn(r *tr.Run, cs c12Case, sh *c12Shared, given *message.Message) {
 	t0 := time.Now()
 	now := func() int64 { return int64(time.Since(t0) / time.Microsecond) }
 	ctx, cancel := context.WithCancel(context.Background())
@@ -249,8 +277,11 @@ func c12RunShared(r *tr.Run, cs c12Case, sh *c12Shared) {
 		MaxElapsedTime: cs.MaxElapsed, RandomizationFactor: float64(cs.RFNum) / float64(cs.RFDen),
 		OnRetryHook: func(k int, d time.Duration) { r.Emit("hook", "k", k, "wait", int64(d/time.Microsecond)) },
 	}
-	msg := message.NewMessage(fmt.Sprintf("r%d", r.ID), nil)
-	msg.SetContext(ctx)
+	msg := given
+	if msg == nil {
+		msg = message.NewMessage(fmt.Sprintf("r%d", r.ID), nil)
+		msg.SetContext(ctx)
+	}
 	call := rt.Middleware(h)
 	if sh != nil {
 		sh.mu.Lock()
